@@ -1,0 +1,8 @@
+//go:build verif
+
+package consensus
+
+// Hook for the /verif C15 (write-ahead log) check.
+
+// VerifRepairWalFile calls repairWalFile.
+func VerifRepairWalFile(src, dst string) error { return repairWalFile(src, dst) }
